@@ -34,6 +34,8 @@ PLAIN = [
     [[["sub", [[["kind", "o"]], [["kind", "-"]]]], ["tag", "#", "t1", False]]],
     [[["desc", "lower case", "'", False, False]]],
     [[["create", ["short", "240101"], ["short", "240131"]]]],
+    # top-level alternatives that begin and end with a parenthesised group
+    [[["sub", [[["kind", "o"], ["tag", "#", "t1", False]]]]], [["sub", [[["kind", "-"], ["tag", "+", "j1", False]]]]]],
 ]
 
 
@@ -42,6 +44,7 @@ def ref_clauses(target: str):
         [[["ref", target]]],
         [[["ref", target], ["tag", "+", "j1", False]]],
         [[["tag", "#", "t1", False]], [["ref", target]]],
+        [[["ref", target]], [["sub", [[["tag", "@", "c1", False]]]]]],
     ]
 
 
@@ -258,9 +261,9 @@ def run(ctx: F.Ctx):
         _IX.clear()
     meta = {
         "rule": (
-            "saved clauses: 7 reference-free clauses (tag, kind, conjunction, alternatives 'o | -', "
+            "saved clauses: 8 reference-free clauses (tag, kind, conjunction, alternatives 'o | -', '(o #t1) | (- +j1)', "
             "'(o | -) #t1', two-word quoted text, date range) + 3 referencing forms per later name "
-            "({x}, {x} +j1, #t1 | {x}); every acyclic assignment to qa, qb, qc (references only to "
+            "({x}, {x} +j1, #t1 | {x}, {x} | (@c1)); every acyclic assignment to qa, qb, qc (references only to "
             "later names), saved pages written as '# W ..', '# S note W .. "
             "O priority G file', '# W .. G file O alpha' (thorough: all three rotations); x 10 "
             "referencing queries ({a} alone, with atoms before/after/both, as alternative on either "
